@@ -453,7 +453,7 @@ def jobs(tier):
     if tier == "thorough":
         cfg += [(3, 2, 3, 2, 3, 3), (4, 3, 3, 2, 3, 6), (4, 3, 4, 2, 2, 5), (4, 2, 4, 1, 1, 4), (4, 4, 4, 2, 1, 4), (5, 3, 4, 2, 2, 5), (3, 3, 5, 2, 1, 5), (6, 4, 3, 2, 2, 3)]
     # templates whose bin need comes from items larger than half a bin (total area at most MB - 1 bins)
-    for (W, H, NI, MB, sl) in [(3, 3, 3, 2, 1), (5, 5, 3, 2, 2), (4, 3, 3, 2, 2)] + ([(3, 3, 4, 2, 2), (5, 3, 4, 2, 1), (3, 3, 4, 2, 1)] if tier == "thorough" else []):
+    for (W, H, NI, MB, sl) in [(3, 3, 3, 2, 1), (5, 5, 3, 2, 2), (4, 3, 3, 2, 2)] + ([(3, 3, 4, 2, 2), (3, 3, 4, 2, 1)] if tier == "thorough" else []):
         js.append(Job(f"decode-half/{W}x{H}/n{NI}/b{MB}/s{sl}", job_decode, dict(W=W, H=H, NI=NI, MB=MB, slack=sl, signs=[], tk="half",
                                                                                    timeout_s=900 if tier == "quick" else 3000),
                       "decoded_instance", 1000 if tier == "quick" else 3300, weight=NI + sl))
